@@ -461,7 +461,7 @@ SUBCHECKS = [
         "readonly_histories",
         oracle,
         strategy=lambda tier: history(tier),
-        budget={"quick": 80, "thorough": 1500},
+        budget={"quick": 200, "thorough": 1500},
         rule="generated score (1-3 parts, optional group, optional repeat) + aligned performance; generated histories of 2-10 (thorough 22) read-only operations incl. iterator creation/steps; identity fingerprint compared after every step, repeated calls compared; non-trivial = >=2 different exporters and a repeated call, or >=2 live iterators",
         known={"segments-left-in-argument": known_segments},
         floors={"two-live-iterators": 0.01, "repeated-call": 0.05},
